@@ -57,6 +57,8 @@ class FuncInfo:
                 self.default_cells[a.arg] = f"{qual}.<default {a.arg}>"
         self.globals_declared = set()
         self.reads, self.writes, self.wbr = set(), set(), set()
+        self.escapes = set()          # names referenced but never followed by a call in this body (e.g. `return _cal_levenshtein`)
+        self.call_lines = []          # line numbers of the call expressions of this body
         self.mutates_args = False
         self.calls = []               # (name, lineno)
         self.first_store, self.first_load = {}, {}
@@ -142,13 +144,19 @@ def analyse_module(path, modname):
                 # a reference to a function (e.g. `cal = _cal_levenshtein`, later `map(cal, ...)`) counts as a potential call,
                 # which can only happen at a later call expression: ordered at the first Call node on a later line
                 later = [c.lineno for c in events if isinstance(c, ast.Call) and c.lineno > e.lineno]
-                fi.calls.append((e.id, min(later) if later else e.lineno))
+                if later:
+                    fi.calls.append((e.id, min(later)))
+                else:
+                    # nothing in this body can invoke it any more: the reference ESCAPES (returned / stored); whoever calls this function
+                    # may invoke it afterwards (see close())
+                    fi.escapes.add(e.id)
                 if e.id in fi.default_cells and e.id not in rebound:
                     fi.reads.add(fi.default_cells[e.id])
                 if e.id in fi.globals_declared or (e.id in module_names and e.id not in param_set):
                     cell = f"{modname}.{e.id}"
                     fi.reads.add(cell)
                     fi.first_load.setdefault(cell, e.lineno)
+        fi.call_lines = sorted(c.lineno for c in events if isinstance(c, ast.Call))
         return fi
 
     for node in tree.body:
@@ -184,11 +192,32 @@ def close(funcs):
     for fi in funcs.values():
         fi.reads = set(c for c in fi.reads if "<default" in c or c in global_cells)
         fi.first_load = {c: l for c, l in fi.first_load.items() if c in global_cells}
+    # a function reference that escapes from a callee (it is returned, not invoked there) can be invoked by the caller at its next
+    # call expression after the call - or escapes from the caller in turn
     changed = True
     while changed:
         changed = False
         for fi in funcs.values():
-            for (name, _line) in fi.calls:
+            for (name, line) in list(fi.calls):
+                for callee in by_name.get(name, []):
+                    if callee is fi:
+                        continue
+                    for e_ in callee.escapes:
+                        if e_ not in by_name:
+                            continue
+                        later = [l for l in fi.call_lines if l > line]
+                        if later:
+                            if (e_, later[0]) not in fi.calls:
+                                fi.calls.append((e_, later[0]))
+                                changed = True
+                        elif e_ not in fi.escapes:
+                            fi.escapes.add(e_)
+                            changed = True
+    changed = True
+    while changed:
+        changed = False
+        for fi in funcs.values():
+            for (name, _line) in fi.calls + [(e_, 0) for e_ in fi.escapes]:
                 for callee in by_name.get(name, []):
                     if callee is fi:
                         continue
@@ -202,6 +231,17 @@ def close(funcs):
                         # the callee mutates ITS parameter; whether that is the caller's own argument is unknown statically:
                         # recorded separately (does not propagate mutatesArgs, to avoid blanket false positives)
                         pass
+    # what a function reads WHILE IT RUNS (its own loads and those of what it calls; not what an escaping reference would read later)
+    rwc = {id(fi): set(fi.first_load) for fi in funcs.values()}
+    changed = True
+    while changed:
+        changed = False
+        for fi in funcs.values():
+            for (name, _line) in fi.calls:
+                for callee in by_name.get(name, []):
+                    if callee is not fi and not rwc[id(callee)] <= rwc[id(fi)]:
+                        rwc[id(fi)] |= rwc[id(callee)]
+                        changed = True
     # writes-before-read for global cells
     for fi in funcs.values():
         for c in list(fi.writes):
@@ -210,7 +250,7 @@ def close(funcs):
             store = fi.first_store.get(c)
             if store is not None:
                 load = fi.first_load.get(c, 10 ** 9)
-                reader_calls = [l for (n, l) in fi.calls for cal in by_name.get(n, []) if c in cal.reads and cal is not fi]
+                reader_calls = [l for (n, l) in fi.calls for cal in by_name.get(n, []) if c in rwc[id(cal)] and cal is not fi]
                 if store <= load and all(store <= l for l in reader_calls):
                     fi.wbr.add(c)
     changed = True
@@ -221,7 +261,7 @@ def close(funcs):
                 if "<default" in c or c in fi.first_store:
                     continue
                 # inherited write: WBR if every callee that touches c has it WBR and fi itself never loads it directly
-                touching = [cal for (n, _l) in fi.calls for cal in by_name.get(n, []) if cal is not fi and (c in cal.writes or c in cal.reads)]
+                touching = [cal for (n, _l) in fi.calls for cal in by_name.get(n, []) if cal is not fi and (c in cal.writes or c in rwc[id(cal)])]
                 if touching and all(c in cal.wbr for cal in touching) and c not in fi.first_load:
                     fi.wbr.add(c)
                     changed = True
